@@ -934,6 +934,23 @@ func main() {
 	case "replay":
 		replay(os.Args[2])
 		return
+	case "src": // exploration: ParseSource on the arguments
+		for _, a := range os.Args[2:] {
+			src, err := influxql.ParseSource(a)
+			fmt.Printf("%q -> %v err=%v\n", a, canonJSON(dumpSource(src)), err)
+		}
+		return
+	case "stmts": // exploration: statement differential only
+		n, _ := strconv.Atoi(os.Args[2])
+		g := &G{r: gen.FromEnv(12)}
+		for _, q := range witnessStmts {
+			gen.Emit(stmtCase(g, q, true))
+		}
+		for i := 0; i < n; i++ {
+			clean := i%5 != 4
+			gen.Emit(stmtCase(g, g.stmt(stmtFeat{clean}, 2), clean))
+		}
+		return
 	}
 	n, _ := strconv.Atoi(os.Args[2])
 	g := &G{r: gen.FromEnv(12)}
@@ -1007,9 +1024,12 @@ func main() {
 		roundtrip(&c, &influxql.UnsignedLiteral{Val: v})
 		emit(c)
 	}
+	for _, q := range witnessStmts {
+		emit(stmtCase(g, q, true))
+	}
 	// 2. generated
 	for i := 0; i < n; i++ {
-		switch k := i % 24; {
+		switch k := i % 27; {
 		case k < 8: // canonical trees without known-defect literal features
 			c := Case{Kind: "ast"}
 			roundtrip(&c, g.canon(feat{false, false}, g.r.Range(1, 4), 0))
@@ -1038,8 +1058,11 @@ func main() {
 			emit(schemaCase(g))
 		case k == 22:
 			emit(rpcCase(g))
-		default:
+		case k == 23:
 			emit(chunkCase(g))
+		default: // full statements: four of five without any construct that has an open finding
+			clean := i%5 != 0
+			emit(stmtCase(g, g.stmt(stmtFeat{clean}, 2), clean))
 		}
 	}
 	gen.Emit(J{"done": true, "cases": id})
